@@ -184,7 +184,7 @@ func checkC10(c *ctx) {
 				zap.ValidateDocFields = savedV
 			}
 			spec, err := zh.SpecOf(c.M, st.b)
-			must(err)
+			mustH(err)
 			sb, _, berr := zh.Build(st.b, st.mode)
 			zap.ValidateDocFields = savedV
 			hasOther := false
@@ -234,7 +234,7 @@ func checkC10(c *ctx) {
 		// the pooled-memory model on the same history
 		a := ask(c, sx.L(sx.N(zh.ReqReuse), sx.List(events)))
 		if code, bad := sx.IsErr(a); bad {
-			must(fmt.Errorf("model rejected the reuse history (error %d)", code))
+			mustH(fmt.Errorf("model rejected the reuse history (error %d)", code))
 		}
 		for _, o := range observed {
 			if !sx.Equal(o.obs, a.L[o.step]) {
@@ -266,7 +266,7 @@ func checkC10(c *ctx) {
 					b = zh.AddSynDocs(c.R, b, o.IDBase)
 				}
 				spec, err := zh.SpecOf(c.M, b)
-				must(err)
+				mustH(err)
 				jobs[j] = append(jobs[j], job{b, randMode(c), spec})
 			}
 		}
